@@ -339,6 +339,10 @@ def F71():
     from formulaic.transforms import ContrastsRegistry as contr
     return exc(lambda: contr.sum().apply(np.eye(3)[[0, 1, 2, 0]], levels=["a", "b", "c"], reduced_rank=True)) is not None
 
+def F72():
+    d = pd.DataFrame({"x": np.array([1, 2, 3, 4], dtype="float16")})
+    return exc(lambda: model_matrix("x", d, output="sparse", context={})) is not None
+
 ids = sys.argv[1:] or [f"F{i}" for i in range(1, 26)]
 for i in ids:
     try:
